@@ -115,6 +115,10 @@ def compare(t, s, values, acc, rng, label):
     return found
 
 
+ATOMS = [S("datetime"), S("date"), S("bytes"), S("uuid4"), S("datetime", call(M.FIX_DT)),
+         S("date", call(M.FIX_DATE)), S("uuid4", call(M.FIX_UUID)), S("bytes", call(b"ab")), S("float")]
+
+
 def cases(tier):
     """(label, term) for every combination."""
     D = dict_operands(tier)
@@ -136,7 +140,15 @@ def cases(tier):
         yield "or-right", ("or", a, ("or", b, c))
         yield "any3", ("any", (a, b, c))
         yield "any-nested", ("any", (("any", (a, b)), c))
-    for k in children(tier) + [("list", ("typed", INT), (ln(1, 2),)),
+    # every remaining atom kind as a direct alternative (their class-level attributes differ)
+    for x in ATOMS:
+        for y in (NONE, INT):
+            yield "or", ("or", x, y)
+            yield "or", ("or", y, x)
+            yield "any", ("any", (x, y))
+            yield "any-nested", ("any", (("any", (y, x)), STR))
+            yield "or-right", ("or", STR, ("or", x, y))
+    for k in children(tier) + ATOMS + [("list", ("typed", INT), (ln(1, 2),)),
                                ("dict", (("a", False, INT),), True), ("any", (INT, STR)),
                                ("alias", "inner", INT)]:
         yield "alias", ("alias", "T", k)
